@@ -8,6 +8,7 @@ _Observable and do not have a ``_type`` attribute.
 from collections import OrderedDict
 import itertools
 
+from .. import registry
 from ..custom import _custom_observable_builder
 from ..exceptions import AtLeastOnePropertyError, DependentPropertiesError
 from ..properties import (
@@ -897,6 +898,12 @@ def CustomObservable(type='x-custom-observable', properties=None, id_contrib_pro
             ),
         )
         if extension_name:
+            if not extension_name.startswith('extension-definition--'):
+                raise ValueError(
+                    "Invalid extension name '%s': must be an extension "
+                    "definition identifier." % extension_name,
+                )
+
             @CustomExtension(type=extension_name, properties={})
             class NameExtension:
                 extension_type = 'new-sco'
@@ -905,5 +912,13 @@ def CustomObservable(type='x-custom-observable', properties=None, id_contrib_pro
             extension = extension.replace('-', '')
             NameExtension.__name__ = 'ExtensionDefinition' + extension
             cls.with_extension = extension_name
-        return _custom_observable_builder(cls, type, _properties, '2.1', _Observable, id_contrib_props)
+        try:
+            return _custom_observable_builder(cls, type, _properties, '2.1', _Observable, id_contrib_props)
+        except Exception:
+            if extension_name:
+                # the type was refused: don't leave its extension behind
+                registry.STIX2_OBJ_MAPS['2.1']['extensions'].pop(
+                    extension_name, None,
+                )
+            raise
     return wrapper
